@@ -262,13 +262,24 @@ Proof.
   apply existsb_exists. exists (a, b). split; [exact Hin | exact Hs].
 Qed.
 
-(* ---- circle: the containment test is the disc of the exported radius *)
+(* ---- circle: the containment test is the disc of the radius; the exported disc has half the radius *)
 Lemma circ_contains_spec C p :
-  circ_contains C p = true <-> in_disc (ccx C) (ccy C) (circ_export_radius C) p.
-Proof. unfold circ_contains, in_disc, circ_export_radius. rewrite andb_true_iff, !Qle_bool_iff. tauto. Qed.
+  circ_contains C p = true <-> in_disc (ccx C) (ccy C) (cr C) p.
+Proof. unfold circ_contains, in_disc. rewrite andb_true_iff, !Qle_bool_iff. tauto. Qed.
 
-Lemma circ_export_radius_is_radius C : circ_export_radius C == cr C.
-Proof. reflexivity. Qed.
+Lemma circ_export_radius_half C : circ_export_radius C == cr C / 2.
+Proof. unfold circ_export_radius. field. Qed.
+
+(* the statement "the exported geometry of a circle is the disc of its radius" is false of the code as it is *)
+Lemma circ_export_refuted :
+  exists C p, circ_contains C p = true /\ ~ in_disc (ccx C) (ccy C) (circ_export_radius C) p.
+Proof.
+  exists {| cr := 2; ccx := 0; ccy := 0 |}, (2, 0). split; [reflexivity|].
+  unfold in_disc, circ_export_radius, dist2; simpl. intros [_ H]. revert H. apply Qlt_not_le. reflexivity.
+Qed.
+(* it is the disc of the radius exactly for the degenerate circle *)
+Lemma circ_export_is_radius_iff C : circ_export_radius C == cr C <-> cr C == 0.
+Proof. unfold circ_export_radius. split; intro H; lra. Qed.
 
 (* ---- polygon: the bounding-box pre-test only ever removes points *)
 Lemma poly_contains_pip r p : poly_contains r p = true -> pip r p = true.
